@@ -4,7 +4,7 @@ CONSTANTS
   MaxVotes = 10000
   MaxParts = 1601
   Weak_BitArrayOpsAssumeEqualSize = FALSE
-  Weak_LastCommitNilDeref = FALSE
+  Weak_LastCommitNilDeref = TRUE
   Weak_SetRoundRecreatesRound = FALSE
 INIT TInit
 NEXT TNext
